@@ -15,6 +15,8 @@ package main
 //	        values and permutations of result lines.
 
 import (
+	"errors"
+	"context"
 	"bytes"
 	"encoding/json"
 	"fmt"
@@ -373,9 +375,12 @@ func tpRepeat(args []string) error {
 			for _, format := range []string{"text", "csv"} {
 				var ref []byte
 				for k, gp := range []string{"1", "2", "16", "4", "1", "8", "3"} {
-					cmd := exec.Command(bin, append(append([]string{"-format", format}, flags...), files...)...)
-					cmd.Env = append(os.Environ(), "GOMAXPROCS="+gp)
-					out, err := cmd.CombinedOutput()
+					so, se, err := tpBenchstat(bin, append(append([]string{"-format", format}, flags...), files...), append(os.Environ(), "GOMAXPROCS="+gp))
+					out := []byte(so + se)
+					if err == errTpTimeout {
+						r.Failures = append(r.Failures, fmt.Sprintf("input %d flags %v format %s: benchstat did not terminate (20 s / 8 GB) at GOMAXPROCS=%s; files %v", i, flags, format, gp, files))
+						break
+					}
 					if err != nil {
 						return fmt.Errorf("benchstat: %v\n%s", err, out)
 					}
@@ -397,14 +402,14 @@ func tpRepeat(args []string) error {
 		files2 := tpGenFiles(rng2, dir, i, true)
 		for _, flags := range [][]string{nil, {"-table", "pkg", "-row", ".name"}, {"-row", ".name,/k", "-col", "goos"}} {
 			run := func(fs []string) (string, string, error) {
-				cmd := exec.Command(bin, append(append([]string{"-format", "csv"}, flags...), fs...)...)
-				var so, se bytes.Buffer
-				cmd.Stdout, cmd.Stderr = &so, &se
-				err := cmd.Run()
-				return so.String(), se.String(), err
+				return tpBenchstat(bin, append(append([]string{"-format", "csv"}, flags...), fs...), nil)
 			}
 			a, wa, err1 := run(files)
 			b, wb, err2 := run(files2)
+			if err1 == errTpTimeout || err2 == errTpTimeout {
+				r.Failures = append(r.Failures, fmt.Sprintf("input %d flags %v: benchstat did not terminate (20 s / 8 GB)", i, flags))
+				continue
+			}
 			if err1 != nil || err2 != nil {
 				return fmt.Errorf("benchstat %v: %v %v", flags, err1, err2)
 			}
@@ -421,6 +426,27 @@ func tpRepeat(args []string) error {
 	return os.WriteFile(args[2], data, 0o644)
 }
 
+var errTpTimeout = errors.New("timeout")
+
+// tpBenchstat runs the binary with a bound on time (20 s) and on address space (8 GB): a run that
+// does not come back, or that eats memory until it is stopped, is reported as errTpTimeout.
+func tpBenchstat(bin string, args []string, env []string) (stdout, stderr string, err error) {
+	ctx, cancel := context.WithTimeout(context.Background(), 20*time.Second)
+	defer cancel()
+	sh := append([]string{"-c", `ulimit -v 8000000; exec "$0" "$@"`, bin}, args...)
+	cmd := exec.CommandContext(ctx, "/bin/sh", sh...)
+	if env != nil {
+		cmd.Env = env
+	}
+	var so, se bytes.Buffer
+	cmd.Stdout, cmd.Stderr = &so, &se
+	err = cmd.Run()
+	if ctx.Err() != nil || (err != nil && (strings.Contains(se.String(), "out of memory") || strings.Contains(se.String(), "cannot allocate memory") || strings.Contains(err.Error(), "killed"))) {
+		return so.String(), se.String(), errTpTimeout
+	}
+	return so.String(), se.String(), err
+}
+
 // tpGenFiles writes 2-3 benchmark files; with permute the benchmark lines of
 // every configuration block are shuffled (same multiset of lines per block).
 func tpGenFiles(rng *rand.Rand, dir string, i int, permute bool) []string {
@@ -431,6 +457,10 @@ func tpGenFiles(rng *rand.Rand, dir string, i int, permute bool) []string {
 	for f := 0; f < nfiles; f++ {
 		var sb strings.Builder
 		nblocks := 1 + rng.Intn(3)
+		if i%2 == 1 {
+			// a unit summarised under the exact assumption (its cells have several equally frequent values)
+			sb.WriteString("Unit widgets assume=exact\n")
+		}
 		for b := 0; b < nblocks; b++ {
 			fmt.Fprintf(&sb, "goos: os%d\npkg: p\n", b)
 			if rng.Intn(2) == 0 {
@@ -449,7 +479,19 @@ func tpGenFiles(rng *rand.Rand, dir string, i int, permute bool) []string {
 				}
 				reps := 3 + rng.Intn(5)
 				for k := 0; k < reps; k++ {
-					lines = append(lines, fmt.Sprintf("Benchmark%s %d %d ns/op %d B/op", nm, 100+k, 1000+rng.Intn(200)+100*f, 64*(1+rng.Intn(3))))
+					l := fmt.Sprintf("Benchmark%s %d %d ns/op %d B/op", nm, 100+k, 1000+rng.Intn(200)+100*f, 64*(1+rng.Intn(3)))
+					if i%2 == 1 {
+						l += fmt.Sprintf(" %d widgets", 100+4*rng.Intn(2))
+					}
+					if i%3 == 2 {
+						// a custom metric in which a run now and then reports NaN
+						if rng.Intn(4) == 0 {
+							l += " NaN flaps"
+						} else {
+							l += fmt.Sprintf(" 0.%d flaps", 5+rng.Intn(5))
+						}
+					}
+					lines = append(lines, l)
 				}
 			}
 			if permute {
